@@ -280,6 +280,7 @@ func (p *serverPeer) Read(b []byte) (int, error) {
 }
 
 type pairResult struct {
+	offersChanged  string
 	cliErr, srvErr error
 	cliHS, srvHS   ws.Handshake
 	req, resp      []byte
@@ -295,11 +296,16 @@ func runPair(c config, reqChunks, respChunks []int) pairResult {
 		return rec.Bytes()
 	}
 	u, _ := url.Parse("ws://example.com" + c.Path)
-	br, hs, err := c.dialer().Upgrade(peer, u)
+	d := c.dialer()
+	before := renderHS(ws.Handshake{Extensions: d.Extensions})
+	br, hs, err := d.Upgrade(peer, u)
 	if br != nil {
 		ws.PutReader(br)
 	}
 	r.cliHS, r.cliErr = hs, err
+	if after := renderHS(ws.Handshake{Extensions: d.Extensions}); after != before {
+		r.offersChanged = fmt.Sprintf("Dialer.Upgrade modified the caller's Dialer.Extensions: %s -> %s", before, after)
+	}
 	r.req, r.resp = append([]byte(nil), peer.req.Bytes()...), peer.resp
 	return r
 }
@@ -318,6 +324,9 @@ func TestPeersAgree(t *testing.T) {
 			hx.NonTrivial(hx.Hash("pair", fmt.Sprint(c.Protocols, c.Accept, c.NoProtoSel, c.Offers, c.ExtMode, c.ExtAccept, c.Flate), c.CRB, c.SRB, gen.ChunkClass(reqChunks), gen.ChunkClass(respChunks)), func() interface{} {
 				return map[string]interface{}{"config": c, "client": fmt.Sprint(r.cliErr, " ", renderHS(r.cliHS)), "server": fmt.Sprint(r.srvErr, " ", renderHS(r.srvHS))}
 			})
+		}
+		if r.offersChanged != "" {
+			t.Fatalf("%s\nresponse:\n%s", r.offersChanged, r.resp)
 		}
 		if (r.cliErr == nil) != (r.srvErr == nil) {
 			t.Fatalf("peers disagree on the outcome: client err=%v, server err=%v\nrequest:\n%s\nresponse:\n%s", r.cliErr, r.srvErr, r.req, r.resp)
@@ -513,6 +522,13 @@ func TestDebugUpgraderFaithful(t *testing.T) {
 		req := mutateRequest(t, base.req)
 		chunks := gen.Chunks(t, "chunks")
 		plainRec := tx.NewRec()
+		dbgRec := tx.NewRec()
+		failAt := -1
+		if rapid.IntRange(0, 3).Draw(t, "writefault") == 0 {
+			// the k-th destination write fails (nothing of it is accepted): the callback must report what reached the wire
+			failAt = rapid.IntRange(0, 3).Draw(t, "failAt")
+			plainRec.FailAt, dbgRec.FailAt = failAt, failAt
+		}
 		plainHS, plainErr := c.upgrader().Upgrade(tx.RW{Reader: tx.NewSrc(req, chunks), Writer: plainRec})
 		var gotReq, gotResp []byte
 		cbReq, cbResp := rapid.Bool().Draw(t, "onrequest"), rapid.Bool().Draw(t, "onresponse")
@@ -523,10 +539,9 @@ func TestDebugUpgraderFaithful(t *testing.T) {
 		if cbResp {
 			d.OnResponse = func(p []byte) { gotResp = append([]byte(nil), p...) }
 		}
-		dbgRec := tx.NewRec()
 		dbgHS, dbgErr := d.Upgrade(tx.RW{Reader: tx.NewSrc(req, chunks), Writer: dbgRec})
 		hx.Eval()
-		hx.Class(fmt.Sprintf("debug-upgrader/ok=%v/cb=%v,%v/nethttp-parses=%v", plainErr == nil, cbReq, cbResp, netHTTPParses(req)))
+		hx.Class(fmt.Sprintf("debug-upgrader/ok=%v/cb=%v,%v/nethttp-parses=%v/writefault=%v", plainErr == nil, cbReq, cbResp, netHTTPParses(req), failAt >= 0 && plainRec.Failed))
 		if (cbReq || cbResp) && (len(c.Protocols) > 0 || len(c.Offers) > 0) {
 			hx.NonTrivial(hx.Hash("dbgup", string(req), fmt.Sprint(chunks), cbReq, cbResp), func() interface{} {
 				return map[string]interface{}{"wrapper": "DebugUpgrader", "chunks": chunks, "plain": fmt.Sprint(plainErr, " ", renderHS(plainHS))}
@@ -732,4 +747,64 @@ func min(a, b int) int {
 		return a
 	}
 	return b
+}
+
+// TestDebugDialerRejections: the server (not the library's upgrader) answers with a
+// non-101 response carrying a body — with a Content-Length (complete or cut short by
+// the connection ending) or close-delimited. DebugDialer must fail like the plain
+// dialer and OnResponse must receive exactly the bytes the server sent.
+func TestDebugDialerRejections(t *testing.T) {
+	hx.Check(t, 2, func(t *rapid.T) {
+		c := drawConfig(t)
+		chunks := gen.Chunks(t, "chunks")
+		status := rapid.SampledFrom([]string{"400 Bad Request", "403 Forbidden", "404 Not Found", "500 Internal Server Error", "503 Service Unavailable"}).Draw(t, "status")
+		body := strings.Repeat("no websocket for you. ", rapid.IntRange(0, 20).Draw(t, "bodyReps"))
+		mode := rapid.SampledFrom([]string{"content-length", "content-length-truncated", "close-delimited"}).Draw(t, "bodyMode")
+		head := "HTTP/1.1 " + status + "\r\nContent-Type: text/plain\r\n"
+		sent := body
+		switch mode {
+		case "content-length":
+			head += fmt.Sprintf("Content-Length: %d\r\n", len(body))
+		case "content-length-truncated":
+			head += fmt.Sprintf("Content-Length: %d\r\n", len(body)+rapid.IntRange(1, 50).Draw(t, "missing"))
+		default:
+			head += "Connection: close\r\n"
+		}
+		wire := []byte(head + "\r\n" + sent)
+		run := func(debug bool, onResp *[]byte) (err error, panicked interface{}) {
+			rand.Seed(c.Seed)
+			peer := &serverPeer{chunks: chunks}
+			peer.serve = func(req []byte) []byte { return wire }
+			d := c.dialer()
+			d.NetDial = func(ctx context.Context, network, addr string) (net.Conn, error) { return fakeConn{peer}, nil }
+			defer func() { panicked = recover() }()
+			if debug {
+				dd := wsutil.DebugDialer{Dialer: d, OnResponse: func(p []byte) { *onResp = append([]byte(nil), p...) }}
+				_, _, _, err = dd.Dial(context.Background(), "ws://example.com"+c.Path)
+			} else {
+				_, _, _, err = d.Dial(context.Background(), "ws://example.com"+c.Path)
+			}
+			return err, nil
+		}
+		plainErr, _ := run(false, nil)
+		var got []byte
+		dbgErr, p := run(true, &got)
+		hx.Eval()
+		hx.Class("debug-dialer/rejection/" + mode)
+		hx.NonTrivial(hx.Hash("dbgrej", status, len(body), mode, fmt.Sprint(chunks)), func() interface{} {
+			return map[string]interface{}{"wrapper": "DebugDialer", "server_response": string(wire[:min(len(wire), 200)]), "body_mode": mode, "chunks": chunks}
+		})
+		if plainErr == nil {
+			t.Fatalf("harness: plain dialer accepted a %s response", status)
+		}
+		if p != nil {
+			t.Fatalf("DebugDialer.Dial panicked (%v) on a rejection the plain dialer reports as %v\nresponse: %q", p, plainErr, wire)
+		}
+		if dbgErr == nil {
+			t.Fatalf("DebugDialer changes the outcome: plain err=%v, debug err=nil", plainErr)
+		}
+		if !bytes.Equal(got, wire) {
+			t.Fatalf("OnResponse reported\n%q\nthe server sent\n%q", got, wire)
+		}
+	})
 }
